@@ -255,7 +255,7 @@ class Executor:
     def check_symheap_frame(self, old_heap, modifies, kind, lineno):
         st = self.st
         for name, h in st.heap.sym.items():
-            if f"heap:{name}" in modifies:
+            if f"heap:{name}" in modifies or f"ghost:{name}" in modifies:
                 continue
             h0 = old_heap.sym.get(name)
             if h0 is None:
@@ -276,7 +276,7 @@ class Executor:
     def check_frame(self, old_heap, args, modifies, kind, lineno):
         st = self.st
         self.check_symheap_frame(old_heap, modifies, kind, lineno)
-        modifies = [m for m in modifies if not m.startswith("heap:")]
+        modifies = [m for m in modifies if not m.startswith(("heap:", "ghost:"))]
         mod = self.modifiable_ids(modifies, args, old_heap)
         for i, o in old_heap.items():
             if i in mod:
@@ -584,7 +584,7 @@ class Executor:
                 if not st.decide(self.truth(self.ev(node.test))):
                     raise PathEnd
             snap = st.snapshot()
-            mod = self.modifiable_ids([m for m in spec.modifies if not m.startswith("heap:")], fr.env, snap)
+            mod = self.modifiable_ids([m for m in spec.modifies if not m.startswith(("heap:", "ghost:"))], fr.env, snap)
             try:
                 self.exec_block(node.body)
             except ContinueSig:
@@ -651,6 +651,12 @@ class Executor:
             old = st.heap.ctr
             st.heap.ctr = st.fresh_int("addr_ctr")
             st.assume(st.heap.ctr >= old)
+            return
+        if path.startswith("ghost:"):
+            name = path[6:]
+            from .values import GHOST_SORTS
+
+            st.heap.sym[name] = st.fresh_const(f"ghost_{name}", GHOST_SORTS[name])
             return
         v = self.resolve_path(path, env)
         if not isinstance(v, Ref):
@@ -881,6 +887,9 @@ class Executor:
                     if v is not NotImplemented:
                         return v
                     return self.eval_in_module(mi, mi.assigns[rest[0]])
+        v = self.models.builtin_constant(self, q)
+        if v is not NotImplemented:
+            return v
         return BuiltinV(q)
 
     def eval_in_module(self, mi, expr):
@@ -1173,6 +1182,9 @@ class Executor:
         if isinstance(obj, ModuleV):
             return self.qualified(f"{obj.name}.{attr}")
         if isinstance(obj, BuiltinV):
+            v = self.models.builtin_constant(self, f"{obj.name}.{attr}")
+            if v is not NotImplemented:
+                return v
             return BuiltinV(f"{obj.name}.{attr}")
         return self.models.value_attr(self, obj, attr, lineno)
 
@@ -1378,6 +1390,9 @@ class Executor:
             return self.call_lambda(fv, args, kwargs, lineno)
         if isinstance(fv, BuiltinV):
             return self.models.call_builtin(self, fv.name, args, kwargs, lineno, node)
+        r = self.models.call_opaque(self, fv, args, kwargs, lineno)
+        if r is not NotImplemented:
+            return r
         raise Unsupported(f"call of {fv!r}")
 
     def call_lambda(self, lv, args, kwargs, lineno):
